@@ -9,6 +9,7 @@ package intern
 //  (3) a seeded stress run of concurrent Intern calls (schedule sampling, not exhaustive).
 
 import (
+	"strings"
 	"encoding/json"
 	"fmt"
 	"os"
@@ -95,6 +96,43 @@ func TestVerifC38Bounded(t *testing.T) {
 			fail("stable", "Intern(%q) twice gives %d then %d", s, id, id3)
 		}
 	}
+	// (2b) the []byte entry points through one re-used buffer: the table must not keep a reference
+	// to the caller's bytes, so overwriting the buffer afterwards changes nothing
+	{
+		btab := new(Table)
+		buf := make([]byte, 0, 64)
+		want := map[string]ID{}
+		var order []string
+		for i := 0; i < 40; i++ {
+			name := fmt.Sprintf("buffer-reuse-name-%d/%s", i%13, strings.Repeat("x", i%5))
+			buf = append(buf[:0], name...)
+			id := btab.InternBytes(buf)
+			evals++
+			if prev, ok := want[name]; ok && prev != id {
+				fail("bytes-reuse", "InternBytes(%q) through a re-used buffer gives %d, earlier %d", name, id, prev)
+			}
+			for other, oid := range want {
+				if other != name && oid == id {
+					fail("bytes-reuse", "InternBytes(%q) through a re-used buffer gives the id %d of %q", name, id, other)
+				}
+			}
+			if _, ok := want[name]; !ok {
+				want[name] = id
+				order = append(order, name)
+			}
+			for j := range buf { // the caller re-uses its buffer
+				buf[j] = '#'
+			}
+			for _, n := range order {
+				if got := btab.Value(want[n]); got != n {
+					fail("bytes-reuse", "Value(%d) = %q after the caller's buffer was overwritten, want %q", want[n], got, n)
+				}
+				if qid, ok := btab.Query(n); !ok || qid != want[n] {
+					fail("bytes-reuse", "Query(%q) = %d,%v after the caller's buffer was overwritten, want %d,true", n, qid, ok, want[n])
+				}
+			}
+		}
+	}
 	// (3) stress: goroutines interning the same fresh strings concurrently must agree
 	rounds := 8000
 	if thorough {
@@ -124,7 +162,7 @@ func TestVerifC38Bounded(t *testing.T) {
 			}
 		}
 	}
-	fmt.Printf("BOUNDED: {\"evaluations\":%d,\"distinct\":%d,\"rule\":\"(1) all 256 byte values of both char6 tables (complete); (2) every string of length <=2 over all 256 bytes and length 3..%d over a 10-byte corner alphabet (alphabet, '.', '-', NUL, bytes >=0x80) through Intern/Value/Query on one Table; (3) %d rounds of 16 goroutines released by a barrier interning the same new string (schedule sampling)\",\"exhaustive\":true,\"bound\":\"len<=2 over 256 bytes, len<=%d over 10 bytes\",\"samples\":[%s,%s,%s]}\n", evals, len(strs), maxLen, rounds, maxLen, c38json(strs[5]), c38json(strs[70000]), c38json(strs[len(strs)-9]))
+	fmt.Printf("BOUNDED: {\"evaluations\":%d,\"distinct\":%d,\"rule\":\"(1) all 256 byte values of both char6 tables (complete); (2) every string of length <=2 over all 256 bytes and length 3..%d over a 10-byte corner alphabet (alphabet, '.', '-', NUL, bytes >=0x80) through Intern/Value/Query on one Table; (2b) 40 names interned with InternBytes through one buffer that is overwritten after every call, all earlier names re-queried each time; (3) %d rounds of 16 goroutines released by a barrier interning the same new string (schedule sampling)\",\"exhaustive\":true,\"bound\":\"len<=2 over 256 bytes, len<=%d over 10 bytes\",\"samples\":[%s,%s,%s]}\n", evals, len(strs), maxLen, rounds, maxLen, c38json(strs[5]), c38json(strs[70000]), c38json(strs[len(strs)-9]))
 }
 
 // c38json renders a sample as a JSON string (Go's %q escapes such as \x00 are not JSON).
